@@ -31,8 +31,8 @@ def halting_stages(spec: dict[str, Any]) -> list[str]:
     for s in spec["stages"]:
         if s.get("enabled") is False:
             continue
-        if any(jump_halts(spec, t) for t in s["tasks"]) or (not s.get("cof") and any(t.get("b") == "fail" for t in s["tasks"])):
-            out.append(s["ref"])
+        if any(jump_halts(spec, t) for t in s["tasks"]) or (not s.get("cof") and not s.get("stop") and any(t.get("b") == "fail" for t in s["tasks"])):
+            out.append(s["ref"])  # a STOPPED failure (failPipeline false) halts only its own branch: the workflow is not torn down
     return out
 
 
@@ -60,7 +60,7 @@ def natural_status(s: dict[str, Any], spec: dict[str, Any] | None = None) -> str
     if spec is not None and any(jump_halts(spec, t) for t in s["tasks"]):
         return "TERMINAL"
     if any(t.get("b") == "fail" for t in s["tasks"]):
-        return "FAILED_CONTINUE" if s.get("cof") else "TERMINAL"
+        return "FAILED_CONTINUE" if s.get("cof") else ("STOPPED" if s.get("stop") else "TERMINAL")
     return "SUCCEEDED"
 
 
